@@ -370,6 +370,8 @@ func TestCheck(t *testing.T) {
 		}
 		concurrent(run, caseID)
 	}
+	// (d) rounds of simultaneous announcements of distinct, rising ids, each followed by a probe
+	concurrentRounds(run)
 	run.Sample(map[string]any{"lattice_halves": []string{"0", "1", "2", "2^64-1"}, "example": "pair:6:9 = s0 announces (1,2), s1 announces (2,1): reply to s1 must be (2,1) and only s1's operation is programmed"})
 	run.CollectRaces()
 	run.Finish("(a) every ordered pair (by distinct sessions and by one session) and triple of the 16 ids whose 64-bit halves are in {0,1,2,2^64-1} - exhaustive for that lattice; (b) random sequences of 2-7 announcements by 2-4 sessions over boundary-structured ids (neighbours +-1 in either half, swapped halves, repeats, decreases, ties); after each announcement the reply must be the running 128-bit maximum, afterwards one operation per session decides who is primary; in every other sequence the sessions also operate BETWEEN announcements (the primary at that moment, nobody else, is accepted) and Flush RPCs carrying ids above / equal to / below the maximum are interleaved (a Flush is not an announcement: later replies still carry the maximum ANNOUNCED), and now and then every session leaves and fresh ones connect (the maximum survives the sessions); (c) concurrent announcements by 8 sessions on separate direct streams under the race detector, history checked with porcupine against a max-register, then the same probe at quiescence. Distinct = by announcement sequence", 500, false)
@@ -510,4 +512,131 @@ func concurrent(run *ev.Run, caseID string) {
 	}
 	run.Eval(1)
 	run.Distinct(fmt.Sprint(plan))
+}
+
+// concurrentRounds: in every round each of 3-8 sessions announces, at the same moment, an id
+// of its own that is higher than everything announced before; the ids of a round are
+// distinct, so whatever the interleaving the announcer of the round's highest id is the
+// primary afterwards: its operation (stamped with that id) must be programmed and the
+// operation of another session (stamped with ITS last id) must not. The election's yield
+// points are perturbed; what is judged is the quiescent state after each round.
+func concurrentRounds(run *ev.Run) {
+	n := run.Pick(64, 1200)
+	y := mon.NewYielder(run.Seed+77, 2, 60)
+	server.VerifSetPoint(y.Point)
+	defer func() {
+		server.VerifSetPoint(nil)
+		for k, v := range y.Hits() {
+			run.Count("yield_point_rounds:"+k, v)
+		}
+	}()
+	ev.Parallel(n, ev.Workers(), func(i int) {
+		caseID := fmt.Sprintf("rounds-%d", i)
+		if !run.Want(caseID) {
+			return
+		}
+		r := run.Rand(caseID)
+		nS := 3 + r.Intn(6)
+		w, err := newWorld(nS)
+		if err != nil {
+			run.Fatal(err.Error())
+			return
+		}
+		defer w.close()
+		hi := uint64(r.Intn(3))
+		base := r.Uint64() >> 2
+		rounds := 30 + r.Intn(50)
+		var trace []string
+		for t := 0; t < rounds; t++ {
+			perm := r.Perm(nS)
+			if r.Intn(8) == 0 {
+				hi++ // the low word may go down when the high word goes up
+				base = uint64(r.Intn(1000))
+			}
+			ids := make([]id128, nS)
+			for k := range ids {
+				ids[k] = id128{hi, base + uint64(t)*16 + uint64(perm[k]) + 1}
+			}
+			errs := make([]error, nS)
+			reps := make([]id128, nS)
+			start := make(chan struct{})
+			var wg sync.WaitGroup
+			for k := 0; k < nS; k++ {
+				wg.Add(1)
+				go func(k int) {
+					defer wg.Done()
+					<-start
+					rep, err := w.ss[k].Elect(ids[k].pb())
+					errs[k] = err
+					if err == nil {
+						reps[k] = fromPB(rep)
+					}
+				}(k)
+			}
+			close(start)
+			wg.Wait()
+			top := 0
+			for k := range ids {
+				if ids[k].lo > ids[top].lo {
+					top = k
+				}
+			}
+			trace = append(trace, fmt.Sprintf("round %d: ids %v announced simultaneously, replies %v", t, ids, reps))
+			if len(trace) > 12 {
+				trace = trace[len(trace)-12:]
+			}
+			var probs []string
+			for k := range ids {
+				if errs[k] == drv.ErrWatchdog {
+					run.Inconclusive(caseID + ": an announcement was not answered within the watchdog")
+					run.Eval(1)
+					return
+				}
+				if errs[k] != nil {
+					probs = append(probs, fmt.Sprintf("announcement-rejected|s%d announcing %s: %v", k, ids[k], errs[k]))
+				} else if reps[k].big().Cmp(ids[k].big()) < 0 || reps[k].big().Cmp(ids[top].big()) > 0 {
+					probs = append(probs, fmt.Sprintf("reported-id-not-running-max:simultaneous|s%d announced %s and was told %s (highest of the round %s)", k, ids[k], reps[k], ids[top]))
+				}
+			}
+			other := (top + 1 + r.Intn(nS-1)) % nS
+			for _, k := range []int{top, other} {
+				if len(probs) > 0 {
+					break
+				}
+				w.opID++
+				stamp := ids[k]
+				if k != top && t%2 == 1 {
+					stamp = ids[top] // the right id on the wrong session
+				}
+				op := &spb.AFTOperation{Id: w.opID, NetworkInstance: server.DefaultNetworkInstanceName, Op: spb.AFTOperation_ADD, ElectionId: stamp.pb(),
+					Entry: &spb.AFTOperation_NextHop{NextHop: &aftpb.Afts_NextHopKey{Index: 1 + uint64(k), NextHop: &aftpb.Afts_NextHop{IpAddress: &wpbS{Value: "192.0.2.1"}}}}}
+				res := w.ss[k].Ops([]*spb.AFTOperation{op}, stamp.pb())
+				accepted := false
+				for _, x := range res.Results {
+					if x.GetId() == op.Id && x.GetStatus() == spb.AFTResult_RIB_PROGRAMMED {
+						accepted = true
+					}
+				}
+				switch {
+				case k == top && !accepted:
+					probs = append(probs, fmt.Sprintf("primary-operation-rejected:after-simultaneous-announcements|s%d announced the highest id %s of the round but its operation was not programmed (%v, rpc error %v)", k, ids[k], res.Results, res.RPCErr))
+				case k != top && accepted:
+					probs = append(probs, fmt.Sprintf("non-primary-operation-accepted:after-simultaneous-announcements|s%d (id %s) had an operation programmed, the highest id of the round is %s", k, ids[k], ids[top]))
+				}
+				if res.RPCErr != nil && len(probs) == 0 {
+					probs = append(probs, fmt.Sprintf("session-ended-by-correctly-handled-operation|s%d: %v", k, res.RPCErr))
+				}
+			}
+			run.Count("simultaneous_announcement_rounds", 1)
+			if len(probs) > 0 {
+				for _, p := range probs {
+					j := strings.Index(p, "|")
+					run.Violation(caseID, p[:j], p[j+1:], map[string]any{"history": trace})
+				}
+				break
+			}
+		}
+		run.Eval(1)
+		run.Distinct(caseID)
+	})
 }
